@@ -128,12 +128,18 @@ func NewEventWrite(addr address.Address, e ipfslog.Entry, heads []ipfslog.Entry)
 
 // EventNewPeer An event sent when a new peer is discovered on the pubsub channel
 type EventNewPeer struct {
-	Peer peer.ID
+	// Address is the address of the store on whose channel the peer was
+	// discovered: every store of an instance emits on the same bus, and
+	// without it a listener could not tell the peers of one database from
+	// those of another
+	Address address.Address
+	Peer    peer.ID
 }
 
 // NewEventNewPeer Creates a new EventNewPeer event
-func NewEventNewPeer(p peer.ID) EventNewPeer {
+func NewEventNewPeer(addr address.Address, p peer.ID) EventNewPeer {
 	return EventNewPeer{
-		Peer: p,
+		Address: addr,
+		Peer:    p,
 	}
 }
